@@ -262,6 +262,10 @@ func runC13(ctx *Ctx) error {
 	if err := corrGoJSON(ctx, ctx.N(1500, 20000)); err != nil {
 		return err
 	}
+	// which request-body definitions an operation gets (tag, default, names, support): GenerateBodyDefinitions vs Model/Bodies.lean
+	if err := corrBodies(ctx, ctx.N(800, 10000)); err != nil {
+		return err
+	}
 	// form bodies of flat objects: runtime.MarshalForm / BindForm vs Model/Form.lean
 	if err := corrForm(ctx, ctx.N(600, 8000)); err != nil {
 		return err
